@@ -223,6 +223,11 @@ def cover_instance(rng, cls, nmax=12):
         pts = [C // 2, C // 3, C // 2 + 1, max(1, C // 2 - 1), C // 3 + 1, max(1, C // 3 - 1), C, 1, max(1, C // 6), 2 * C // 3, C + 1]
         n = rng.randint(2, nmax)
         return C, [rng.choice(pts) for _ in range(n)]
+    if cls == "allbig":
+        # every item alone covers a bin (all values >= the bin size), or a single item
+        C = rng.choice([1, 7, 10, 100])
+        n = rng.choice([1, 1, 2, 3, rng.randint(1, nmax)])
+        return C, [rng.randint(C, 3 * C) for _ in range(n)]
     if cls == "toosmall":
         C = rng.choice([10, 100, 1000])
         n = rng.randint(1, min(nmax, 6))
